@@ -72,3 +72,23 @@ def litVal (cs : List Char) : Option Val :=
   | _ => litNum cs
 
 end Pydap.TableVal
+
+namespace Pydap.TableVal
+open Pydap Pydap.IterData
+
+def stripTrailingZeros (cs : List Char) : List Char :=
+  (cs.reverse.dropWhile (· = '0')).reverse
+
+def pad4 (cs : List Char) : List Char := List.replicate (4 - cs.length) '0' ++ cs
+
+/-- `pydap.lib.encode` on the generated values: `'"%s"'` for strings, `'%.6g'` for numbers
+    (multiples of 1/16 of small magnitude print exactly, without exponent) -/
+def encVal : Val → List Char
+  | .str s => '"' :: s ++ ['"']
+  | .num n =>
+    let a := n.natAbs
+    let ip := natDigits (a / 16)
+    let fp := stripTrailingZeros (pad4 (natDigits (a % 16 * 625)))
+    (if n < 0 then ['-'] else []) ++ ip ++ (if fp = [] then [] else '.' :: fp)
+
+end Pydap.TableVal
